@@ -50,6 +50,12 @@ type ImproperAddressing struct {
 
 func (e *ImproperAddressing) GroupErrorName() string { return "improper-addressing" }
 
+type ItemNotFound struct {
+	XMLName xml.Name `xml:"urn:ietf:params:xml:ns:xmpp-stanzas item-not-found"`
+}
+
+func (e *ItemNotFound) GroupErrorName() string { return "item-not-found" }
+
 type InternalServerError struct {
 	XMLName xml.Name `xml:"urn:ietf:params:xml:ns:xmpp-stanzas internal-server-error"`
 }
